@@ -190,12 +190,20 @@ func (s *scope) CreateScope(ctx context.Context) (Scope, error) {
 
 	// Track child
 	s.childrenMu.Lock()
+	if s.children == nil {
+		// This scope was closed while the child was being created
+		s.childrenMu.Unlock()
+		_ = child.Close()
+		return nil, ErrScopeDisposed
+	}
 	s.children[child] = struct{}{}
 	s.childrenMu.Unlock()
 
-	// Track in provider
+	// Track in provider (a closed provider no longer tracks scopes; the child is still owned by this scope)
 	s.rootProvider.scopesMu.Lock()
-	s.rootProvider.scopes[child] = struct{}{}
+	if s.rootProvider.scopes != nil {
+		s.rootProvider.scopes[child] = struct{}{}
+	}
 	s.rootProvider.scopesMu.Unlock()
 
 	// Auto-close on context cancellation
